@@ -1,4 +1,5 @@
 CONSTANT MaxLen = 3
+CONSTANT SeqExtra = 2
 CONSTANT Slots = {"endpoint"}
 INIT Init
 NEXT Next
